@@ -5,34 +5,37 @@ from rv import dense, env, gen, states
 
 ID = "C08"
 LEVEL = "exploration"
-RULE = ("One chain case = one run of optimize_mps on a Hermitian Hamiltonian with a dense reference (dim <= 4096): "
+RULE = ("One chain case = one run of optimize_mps on a Hermitian Hamiltonian with a dense reference (prod(d) <= 4096): "
         "random electron-phonon models (SimpleElectron + SHO, any exciton number), XXZ-type spin chains with and "
         "without conserved magnetisation, generic Hermitian term tables on generated basis lists with none/one/two "
-        "quantum numbers, qc_model of 1..3 spatial orbitals; real and complex H; a sector; a start state "
-        "(Mps.random with bond 1..over-complete, product state; real or complex); a random procedure of >= 2 sweeps "
-        "[bond limit 1..exact ranks..over-complete, percent 0..0.5]; method 1site/2site; algo davidson/direct/arpack; "
-        "nroots 1..4; optional omega; optional inverse=-1; optional StackedMpo (H = H1 + H2). With A = inverse*(H or "
-        "(H-omega)^2) restricted to the sector and a_k its exact eigenvalues: every energy of every micro-iteration "
-        "and every sweep (root k, sorted) >= a_k; returned states normalised, inside the sector, with valid labels, "
-        "<A> >= a_0 and expectation(mpo) == dense <H>; when the last sweep cannot discard weight the returned "
-        "state's <A> equals the energy of the micro-iteration it was taken from; whenever the local eigenproblem of "
-        "a micro-iteration has the dimension of the whole sector (complete renormalised bases: measured at run time "
-        "by a wrapper on eigh_direct/eigh_iterative) its energies equal the exact ones, and after >= 3 such sweeps "
-        "the lowest reported energies equal exact diagonalisation. Davidson kernel cases: davidson/davidson1 on "
-        "random real-symmetric / complex-Hermitian matrices (dim 5..300; degenerate, clustered, block-diagonal, "
-        "diagonally dominant). Non-trivial chain run: >= 1 truncating sweep (bond limit below the generic rank of "
-        "the sector at some cut) AND the final sweep not truncating, sector with >= 2 states; distinct by (model, "
-        "sector, schedule, solver).")
+        "quantum numbers, qc_model of 1..3 spatial orbitals (plain and stacked); real and complex H; a sector; a start "
+        "state (Mps.random with bond 1..over-complete, product state; real or complex); a random procedure of >= 2 "
+        "sweeps [bond limit 1..exact ranks..over-complete, percent 0..0.5; integer, threshold-CompressConfig or "
+        "OFS-CompressConfig entries]; method 1site/2site; algo davidson/direct/arpack; nroots 1..4; optional omega; "
+        "optional inverse=-1; optional StackedMpo (H = H1 + H2); optional on-the-fly site swapping. With A = "
+        "inverse*(H or (H-omega)^2) restricted to the sector and a_k its exact eigenvalues: every energy of every "
+        "micro-iteration (recorded by wrappers on eigh_direct/eigh_iterative/single_sweep) and of every sweep (root k, "
+        "sorted) >= a_k; the sweep energy is the minimum of its micro-iterations; returned states normalised, inside "
+        "the sector, with valid labels, <A> >= a_0 and expectation(mpo) == dense <H>; when the last sweep cannot "
+        "discard weight the returned state's <A> equals the energy of the micro-iteration it was copied from; "
+        "whenever the local eigenproblem of a micro-iteration has the dimension of the whole sector (complete "
+        "renormalised bases, measured at run time) the direct solver's energies equal the exact lowest ones, that "
+        "sweep's reported energy equals a_0, Davidson values flagged converged lie in the spectrum of A, and states "
+        "returned losslessly from such a micro-iteration are eigenstates. Davidson kernel cases: davidson/davidson1 "
+        "on random real-symmetric / complex-Hermitian matrices (dim 5..300; degenerate, clustered, block-diagonal with "
+        "the guess in an invariant subspace, diagonally dominant). Non-trivial chain run: >= 1 executed truncating "
+        "sweep (bond limit below the generic rank of the sector at some cut) AND the last executed sweep not "
+        "truncating, sector with >= 2 states; distinct by (model, terms, sector, schedule, method, solver).")
 ASSUMPTIONS = [
     "lower bounds are theorems (Ritz values of A projected on an orthonormal set; Cauchy interlacing for root k, compared after sorting); slack 1e-9*max(1,|a_k|) + 1e-11*||A||",
-    "equality with exact diagonalisation is only demanded where it is a theorem: a micro-iteration whose local problem (count of True entries of qn_mask, read by the solver wrapper) has the dimension of the sector diagonalises A itself. Merely allowing the exact ranks does NOT guarantee convergence: after truncating sweeps the one-site update cannot re-create lost symmetry blocks and the two-site update can be trapped too (e.g. 3-site Holstein chain, procedure [[2,.4],[4,.2],[64,0]x3] stays 0.07 above E_0); such runs are counted (class full-M-incomplete) and only bounded from below",
-    "direct solver: equality 1e-8 relative at every complete micro-iteration; iterative solver: 1e-6 relative (the optimiser's e_rtol) on the lowest reported energies once >= 3 sweeps contained a complete micro-iteration",
-    "returned-state consistency (<A> of returned root k == energy k of the micro-iteration it was copied from, 1e-7 relative) is demanded only when the last executed sweep is lossless: integer bond limit >= dim, or percent == 0 and limit >= the generic rank at every cut",
+    "equality with exact diagonalisation is only demanded where it is a theorem: a micro-iteration whose local problem (count of True entries of qn_mask, read by the solver wrapper) has the dimension of the sector diagonalises A itself. Merely allowing the exact ranks does NOT guarantee convergence: after truncating sweeps the one-site update cannot re-create lost symmetry blocks and the two-site update can be trapped too (3-electron Holstein chain, procedure [[2,.4],[4,.2],[64,0]x3], ends 0.07 above E_0); such runs are counted (classes full-M-incomplete*) and only bounded from below",
+    "direct solver at a complete micro-iteration: the k lowest exact eigenvalues, 1e-8 relative + 1e-10*||A||. Davidson at a complete micro-iteration: only when davidson1 flagged every root converged (|de| < 1e-12, |r| < 1e-6) and then only 'each value within 2e-6*max(1,|e|) of SOME eigenvalue of A': a Krylov space started in an invariant subspace of a Hamiltonian with undeclared symmetries never leaves it, so converged values need not be the lowest ones (observed: generic model, prod(d)=1600, misses E_0 and E_2 for two sweeps). eigh_iterative stops Davidson after 100 cycles without telling: unconverged calls are counted (complete-iterative:davidson-not-converged), frequent with omega",
+    "returned-state consistency (<A> of returned root k == energy k of the micro-iteration it was copied from, 1e-7 relative) is demanded only when the last executed sweep is lossless: integer bond limit >= prod(d), or (no site swapping) percent == 0 and limit >= the generic rank at every cut",
     "omega: the reported numbers are Ritz values of (H-omega)^2 (the optimiser squares the shifted MPO), inverse=-1: of -H; both are handled by taking A = inverse*(H-omega)^2 / inverse*H as the reference operator",
-    "complex H is run from a complex start state (a real Mps cannot hold complex tensors: Matrix asserts); StackedMpo is never combined with omega (NotImplementedError in the library)",
+    "complex H (and real H whose MPO tensors are complex) is run from a complex start state (a real Mps cannot hold complex tensors: Matrix asserts); StackedMpo and site swapping are never combined with omega; site swapping only for 2site, general Model, fixed criterion, no Jordan-Wigner strings, requested through CompressConfig entries of the procedure",
     "procedures have >= 2 sweeps (with one sweep optimize_mps has no state to return and trips its own assert)",
-    "Davidson kernel: Ritz values >= exact (slack 1e-9*max(1,||A||)); a pair flagged converged by davidson1 has true residual <= 10*sqrt(tol) + 1e-9*||A|| (the code's own criterion is |de| < tol and |r| < sqrt(tol)) and lies within that residual of an exact eigenvalue",
-    "prod(d) <= 4096; forced direct solver only for prod(d) <= 400",
+    "Davidson kernel: Ritz values >= exact (slack 1e-9*max(1,||A||)); a pair flagged converged by davidson1 has true residual <= 10*sqrt(tol) + 1e-9*||A|| (the code's own criterion is |de| < tol and |r| < sqrt(tol)) and lies within that residual of an exact eigenvalue; all guesses of one call share a dtype (as in gs.single_sweep)",
+    "reference matrix assembled like rv.dense.op_dense (own grouping by site, basis.op_mat local matrices) but with scipy.sparse Kronecker products; Hermiticity and sector conservation verified per case; forced direct solver only for prod(d) <= 400; omega with prod(d) > 600 keeps bond limits <= rank + 2 (two-layer environments)",
 ]
 
 HUGE = 10 ** 5
@@ -43,20 +46,24 @@ def plan(tier):
             "required_classes": ["method:1site", "method:2site", "solver:direct", "solver:iterative", "nroots:1",
                                  "nroots:2", "nroots:3", "nroots:4", "omega", "stacked", "complex-H", "qn:none",
                                  "qn:one", "qn:two", "schedule:truncating-then-full", "inverse:-1", "model:holstein",
-                                 "model:xxz", "model:generic", "model:qc", "equality-checked:direct",
+                                 "model:xxz", "model:generic", "model:qc", "ofs", "equality-checked:direct",
                                  "equality-checked:iterative-converged", "equality-checked:sweep-energy",
                                  "equality-checked:returned-eigenstate", "state-consistency-checked", "davidson-kernel"],
             "max_refused_frac": 0.2}
+    # thresholds leave room for the tree cases (every 5th index) once rv.props.c08_tree exists
     if tier == "quick":
         base.update({"ncases": 160, "min_nontrivial": 20,
-                     "required_counters": {"oracle": 1500, "eigh_direct_calls": 500, "eigh_iterative_calls": 200,
-                                           "runs_with_iterative_solver": 20, "equality_checked": 100,
-                                           "davidson_kernel_runs": 40, "optimize_runs": 90}})
+                     "required_counters": {"oracle": 2500, "eigh_direct_calls": 1000, "eigh_iterative_calls": 100,
+                                           "runs_with_iterative_solver": 15, "equality_checked": 150,
+                                           "state_consistency_checked": 60, "davidson_kernel_runs": 40,
+                                           "optimize_runs": 80}})
     else:
-        base.update({"ncases": 2800, "min_nontrivial": 400,
-                     "required_counters": {"oracle": 30000, "eigh_direct_calls": 10000, "eigh_iterative_calls": 4000,
-                                           "runs_with_iterative_solver": 400, "equality_checked": 2000,
-                                           "davidson_kernel_runs": 800, "optimize_runs": 1800}})
+        base["required_classes"] = base["required_classes"] + ["ofs:sites-reordered"]
+        base.update({"ncases": 3000, "min_nontrivial": 500,
+                     "required_counters": {"oracle": 50000, "eigh_direct_calls": 20000, "eigh_iterative_calls": 2000,
+                                           "runs_with_iterative_solver": 350, "equality_checked": 3500,
+                                           "state_consistency_checked": 1200, "davidson_kernel_runs": 1000,
+                                           "optimize_runs": 1700}})
     return base
 
 
@@ -563,7 +570,7 @@ def run_chain_case(ctx):
     tag = f"{method}|{algo}"
     try:
         energies, res = ctx.lib(gs.optimize_mps, start, mpo_run, omega=omega, what="optimize_mps",
-                                refusals=("primme",))
+                                refusals=("primme", "algo"))
     finally:
         calls = list(TRACE["calls"])
         sweeps = [dict(s) for s in TRACE["sweeps"]]
@@ -591,13 +598,13 @@ def run_chain_case(ctx):
                          f"micro-energy|malformed|{tag}", e=e):
             break
         bad = [k for k in range(len(e)) if e[k] < a[k] - slack_of(a[k], specr)]
-        worst = max(worst, max((a[k] - e[k]) / max(1.0, abs(a[k])) for k in range(len(e))))
+        worst = max(worst, max((a[k] - e[k]) / slack_of(a[k], specr) for k in range(len(e))))
         if bad:
             ctx.violate(f"energy-below-exact|{tag}|{c['solver']}|micro-iteration" + ("|omega" if omega is not None else "")
                         + ("|inverse" if inverse < 0 else "") + ("|stacked" if stacked else ""),
                         root=bad[0], got=e, exact=a[:len(e)], local_dim=c["local_dim"], sector_dim=ds)
             break
-    ctx.metric_max("max_(exact-reported)/scale", worst)
+    ctx.metric_max("max_(exact-reported)/slack", worst)
     for s, en in enumerate(energies):
         e = np.sort(np.array(en, dtype=float).reshape(-1))
         ctx.count("oracle")
@@ -929,4 +936,5 @@ def run_kernel_case(ctx):
             elif conv is not None:
                 ctx.cls("kernel:not-converged")
         ctx.check(gram_err <= 1e-6, "davidson-kernel|vectors-not-orthogonal", overlap=gram_err, **d)
+    ctx.evaluations = max(1, len(descs))
     ctx.describe({"davidson_kernel": descs})
